@@ -36,44 +36,20 @@ def run(ctx):
             ctx.ob(R1, mfi.qual, f"pool selected by parse_url(url).{comp}", ok, f"provenance {[t for t in tags if t.startswith(comp)]}", node=s.node)
     txt = astq.text(mfi.node)
     ctx.ob(R1, mfi.qual, "the URL is parsed once per hop: u = parse_url(url)", txt.count("parse_url(url)") == 1)
-    cfh = m.func(f"{PM}.PoolManager.connection_from_host")
-    ok = False
-    for n_ in astq.walk_fn(cfh.node):
-        if isinstance(n_, ast.If) and astq.text(n_.test) == "not port":
-            for a_ in n_.body:
-                if isinstance(a_, ast.Assign) and astq.text(a_.targets[0]) == "port":
-                    t_ = astq.itext(cfh.node, a_.value).replace('"', "'")
-                    ok = t_.startswith("port_by_scheme.get(") and "['scheme'].lower()" in t_
-    ctx.ob(R1, cfh.qual, "absent port defaults from port_by_scheme of the (lower-cased) scheme", ok)
-    ctx.ob(R1, cfh.qual, "a missing host is refused", "if not host:\n        raise LocationValueError(" in astq.text(cfh.node))
+    from . import c15_rows
+    R6 = ctx.rule("C15-R6", "URLs differing only in scheme/host case or an explicit default port reach the same pool: scheme and host are lower-cased by the parser and by the key normaliser; the default port is filled in before keying", "E10 effect rows")
+    c15_rows.r1_r6_connection_from_host(ctx, R1, R6)
     pbs = fold.need(CN, "port_by_scheme")
     ctx.ob(R1, CN, "port_by_scheme == {http: 80, https: 443}", pbs == {"http": 80, "https": 443}, str(pbs))
     for cls, dp in ((f"{CN}.HTTPConnection", "http"), (f"{CN}.HTTPSConnection", "https")):
         c, st = m.find_class_attr(cls, "default_port")
         ok = st is not None and c.qual == cls and astq.text(st.value).replace("'", '"') == f'port_by_scheme["{dp}"]'
         ctx.ob(R1, cls, f"default_port = port_by_scheme[{dp!r}]", ok)
-    for cls in (f"{CP}.HTTPConnectionPool",):
-        nc = m.method(cls, "_new_conn")
-        cc = [c for c in astq.calls(nc.node) if astq.call_text(c) == "self.ConnectionCls"]
-        ok = bool(cc) and astq.text(astq.kwarg(cc[0], "host")) == "self.host" and astq.text(astq.kwarg(cc[0], "port")) == "self.port"
-        ctx.ob(R1, nc.qual, "the connection is built for the pool's own host and port", ok)
-    pi = m.method(f"{CP}.HTTPConnectionPool", "__init__")
-    ok = "ConnectionPool.__init__(self, host, port)" in astq.text(pi.node)
-    ctx.ob(R1, pi.qual, "the pool keeps the host and port it was created for", ok)
-    newpool = m.func(f"{PM}.PoolManager._new_pool")
-    rets = [r for r in astq.walk_fn(newpool.node) if isinstance(r, ast.Return)]
-    ok = bool(rets) and isinstance(rets[0].value, ast.Call) and [astq.text(a) for a in rets[0].value.args] == ["host", "port"]
-    ctx.ob(R1, newpool.qual, "pool_cls(host, port, ...) receives the context's host and port", ok)
+    c15_rows.r1_pool_chain(ctx, R1)
 
     # ------------------------------------------------------------------ R2 target excludes fragment and userinfo
     R2 = ctx.rule("C15-R2", "the request target never draws on the fragment or the userinfo: Url.request_uri reads only path and query, and no other Url view reaches _make_request's target", "E6 read-set / taint")
-    ru = m.funcs.get(f"{URL}.Url.request_uri")
-    if ru is None:
-        raise AnalysisError("Url.request_uri not found")
-    reads = astq.attrs_read(ru.node)
-    ctx.ob(R2, ru.qual, f"request_uri reads {sorted(reads)}", reads <= {"path", "query"} and "path" in reads, "" if reads <= {"path", "query"} else "the origin-form target includes more than path and query")
-    ok = any(isinstance(n_, ast.Assign) and astq.text(n_.value).replace('"', "'") == "self.path or '/'" for n_ in astq.walk_fn(ru.node))
-    ctx.ob(R2, ru.qual, "an empty path becomes '/'", ok)
+    c15_rows.r2_request_uri(ctx, R2)
     prule, pfi, pouts = resend.analyse(ctx, "pool")
     reqs = [s for s in prule.sites if s.kind == "request"]
     views = {}
@@ -107,66 +83,15 @@ def run(ctx):
 
     # ------------------------------------------------------------------ R3 dial vs name
     R3 = ctx.rule("C15-R3", "the address dialled is the URL's host as written (trailing dot kept for DNS), while Host and SNI use the host with the trailing dot removed; the host property depends only on that one field", "E6")
-    nc = m.method(f"{CN}.HTTPConnection", "_new_conn")
-    cc = [c for c in astq.calls(nc.node) if astq.call_text(c) == "connection.create_connection"]
-    ok = bool(cc) and astq.text(cc[0].args[0]) == "(self._dns_host, self.port)"
-    ctx.ob(R3, nc.qual, "create_connection((self._dns_host, self.port), ...)", ok, astq.text(cc[0].args[0]) if cc else "")
-    hp = m.classes[f"{CN}.HTTPConnection"].methods.get("host")
-    ok = hp is not None and "return self._dns_host.rstrip('.')" in astq.text(hp.node).replace('"', "'")
-    ctx.ob(R3, f"{CN}.HTTPConnection.host", "host == _dns_host without trailing dots", ok)
-    hs = m.classes[f"{CN}.HTTPConnection"].methods.get("host@setter")
-    ok = hs is not None and "self._dns_host = value" in astq.text(hs.node)
-    ctx.ob(R3, f"{CN}.HTTPConnection.host", "assigning host stores the dialled name unchanged", ok)
-    sc_ = m.method(f"{CN}.HTTPSConnection", "connect")
-    wrapc = [c for c in astq.calls(sc_.node) if astq.call_text(c) == "_ssl_wrap_socket_and_match_hostname"]
-    shv = astq.kwarg(wrapc[0], "server_hostname") if wrapc else None
-    srcs_ = astq.sources_of(sc_.node, shv) if shv is not None else []
-    stripped = [x for x in srcs_ if isinstance(x, ast.Call) and isinstance(x.func, ast.Attribute) and x.func.attr == "rstrip" and astq.text(x.args[0]).replace('"', "'") == "'.'"]
-    from_host = stripped and any(astq.text(y) == "self.host" for y in astq.sources_of(sc_.node, stripped[0].func.value))
-    ctx.ob(R3, sc_.qual, "SNI starts from the host property and is dot-stripped", bool(stripped) and bool(from_host) and len(srcs_) == 1)
+    c15_rows.r3_dial_vs_name(ctx, R3)
 
     # ------------------------------------------------------------------ R4 SNI normalisation
-    R4 = ctx.rule("C15-R4", "the TLS server name loses brackets and zone id only when the remainder is an IP literal", "E5")
-    wf = m.func(f"{CN}._ssl_wrap_socket_and_match_hostname")
-    stores = [n for n in astq.walk_fn(wf.node) if isinstance(n, ast.Assign) and astq.text(n.targets[0]) == "server_hostname"]
-    ctx.sites(R4, len(stores), 1, "re-definitions of server_hostname")
-    norm_names = set(astq.assigned_from(wf.node, lambda v: astq.text(v).replace('"', "'") == "server_hostname.strip('[]')"))
-    for n in stores:
-        g = astq.enclosing(n, ast.If)
-        ok = g is not None and isinstance(g.test, ast.Call) and astq.call_text(g.test) == "is_ipaddress" and astq.text(g.test.args[0]) in norm_names and astq.text(n.value) in norm_names
-        ctx.ob(R4, wf.qual, "server_hostname is replaced by its normalised form only under is_ipaddress(normalised)", ok, node=n)
-    cut = False
-    for n in astq.walk_fn(wf.node):
-        if isinstance(n, ast.If) and isinstance(n.test, ast.Compare) and astq.text(n.test.left).replace('"', "'") == "'%'" and astq.text(n.test.comparators[0]) in norm_names:
-            cut = any(isinstance(x, ast.Assign) and astq.text(x.targets[0]) in norm_names and ".rfind('%')" in astq.text(x.value).replace('"', "'") for x in n.body)
-    ctx.ob(R4, wf.qual, "normalisation = strip brackets, cut the zone id", bool(norm_names) and cut)
-    call = [c for c in astq.calls(wf.node) if astq.call_text(c) == "ssl_wrap_socket"]
-    ok = bool(call) and astq.text(astq.kwarg(call[0], "server_hostname")) == "server_hostname"
-    ctx.ob(R4, wf.qual, "that name is the one handed to the TLS layer", ok)
+    R4 = ctx.rule("C15-R4", "the TLS server name loses brackets and zone id only when the remainder is an IP literal", "E10 effect rows")
+    c15_rows.r4_sni_normalisation(ctx, R4)
 
     # ------------------------------------------------------------------ R5 brackets
-    R5 = ctx.rule("C15-R5", "the pool's host (dial address, Host header) has IPv6 brackets removed by the pool-level normaliser, while CONNECT keeps them", "E6")
-    nh = m.func(f"{CP}._normalize_host")
-    txt = astq.text(nh.node).replace('"', "'")
-    ok = "host = normalize_host(host, scheme)" in txt and "if host and host.startswith('[') and host.endswith(']'):\n        host = host[1:-1]" in txt
-    ctx.ob(R5, nh.qual, "pool-level _normalize_host = URL-level normaliser + bracket stripping", ok)
-    cpi = m.method(f"{CP}.ConnectionPool", "__init__")
-    t2 = astq.text(cpi.node)
-    ctx.ob(R5, cpi.qual, "self.host uses the bracket-stripping normaliser, self._tunnel_host the bracket-keeping one",
-           "self.host = _normalize_host(host, scheme=self.scheme)" in t2 and "self._tunnel_host = normalize_host(host, scheme=self.scheme).lower()" in t2)
-
-    # ------------------------------------------------------------------ R6 same pool for equivalent URLs
-    R6 = ctx.rule("C15-R6", "URLs differing only in scheme/host case or an explicit default port reach the same pool: scheme and host are lower-cased by the parser and by the key normaliser; the default port is filled in before keying", "E6")
-    norm = m.func(f"{PM}._default_key_normalizer")
-    t3 = astq.text(norm.node).replace('"', "'")
-    cl_ = (astq.assigned_from(norm.node, lambda v: isinstance(v, ast.Call) and isinstance(v.func, ast.Attribute) and v.func.attr == "copy") or ["context"])[0]
-    ctx.ob(R6, norm.qual, "key normaliser lower-cases scheme and host", f"{cl_}['scheme'] = {cl_}['scheme'].lower()" in t3 and f"{cl_}['host'] = {cl_}['host'].lower()" in t3)
-    # port filled in before the context is keyed
-    lines = [(n.lineno, astq.text(n)) for n in astq.walk_fn(cfh.node) if isinstance(n, (ast.Assign, ast.Return))]
-    rcn = (astq.assigned_from(cfh.node, lambda v: isinstance(v, ast.Call) and astq.call_text(v) == "self._merge_pool_kwargs") or ["request_context"])[0]
-    port_set = [ln for ln, t_ in lines if t_.replace('"', "'").startswith(f"{rcn}['port'] = port")]
-    keyed = [ln for ln, t_ in lines if f"self.connection_from_context({rcn})" in t_]
-    ctx.ob(R6, cfh.qual, "the (defaulted) port is stored in the context before it is keyed", bool(port_set) and bool(keyed) and port_set[0] < keyed[0])
+    R5 = ctx.rule("C15-R5", "the pool's host (dial address, Host header) has IPv6 brackets removed by the pool-level normaliser, while CONNECT keeps them", "E10 effect rows")
+    c15_rows.r5_brackets(ctx, R5)
 
 
 # ---------------------------------------------------------------------------- R7 (added after seeded change C15/target-form-by-parsed-host)
